@@ -101,6 +101,7 @@ type Action struct {
 
 type Script struct {
 	Name        string
+	Inst        int  // > 0: the Inst-th further instance of the plugin called Name (`-p "name --instance=N"`)
 	Conforming  bool // real plugin.Main with a scripted generator
 	StartFail   int  // 0 none, 1 ENOENT, 2 EAGAIN
 	ExitAtStart bool // exit before reading anything
@@ -120,6 +121,14 @@ type GenFile struct {
 
 // handshakeOK: the plugin sends a complete well-formed handshake reply with the
 // expected name and version.
+// ID tells the instances of one plugin name apart.
+func (s *Script) ID() string {
+	if s.Inst > 0 {
+		return fmt.Sprintf("%s#%d", s.Name, s.Inst)
+	}
+	return s.Name
+}
+
 func (s *Script) handshakeOK() bool {
 	if s.StartFail != 0 || s.ExitAtStart {
 		return false
